@@ -330,7 +330,11 @@ func replayFor(l *Loader, spec *PropSpec, r *UnitResult, o *Obl, outDir string) 
 	if lemmaSearchHit != nil {
 		return *lemmaSearchHit
 	}
-	return ReplayResult{Note: "no lemma harness of this property exposes the failed clause with a concrete input"}
+	note := "no lemma harness of this property exposes the failed clause with a concrete input"
+	if postNote != "" {
+		note = "direct replay of the clause: " + postNote + "; " + note
+	}
+	return ReplayResult{Note: note}
 }
 
 func writeReplayFile(path, id string, o *Obl, rr ReplayResult) {
